@@ -125,7 +125,7 @@ class C07(Prop):
         big = tier == "thorough"
         return gen_ir.Cfg(unnamed=True, max_defs=8 if big else 6, max_children=5 if big else 4,
                           max_width=3, share=True, late=True, top="maybe", data_all=True,
-                          top_modes=["standalone", "definition", "child"], noref_children=False)
+                          top_modes=["standalone", "definition", "child"], noref_children=True)
 
     def strategy(self, tier):
         step = ops.op_strategy(EDIT_WEIGHTS)
@@ -177,6 +177,8 @@ class C07(Prop):
                 return res
         res.label("source-" + src["kind"])
         self.keep = self.outsiders(nl, case.get("pre") or [], res)
+        if res.violations:
+            return res
         kind = case["root"]["kind"]
         res.label("root-" + kind)
         if kind == "netlist":
@@ -237,11 +239,19 @@ class C07(Prop):
             D = defs[p["i"] % len(defs)]
             k = p["k"]
             if k == "clone_def":
-                keep.append(D.clone())
+                try:
+                    keep.append(D.clone())
+                except Exception as e:  # noqa
+                    res.violate("C07:definition:clone-raises:%s" % type(e).__name__, repr(e))
+                    break
                 res.label("pre-detached-definition-clone")
             elif k == "clone_inst":
                 if D.children:
-                    keep.append(D.children[p["i"] % len(D.children)].clone())
+                    try:
+                        keep.append(D.children[p["i"] % len(D.children)].clone())
+                    except Exception as e:  # noqa
+                        res.violate("C07:instance:clone-raises:%s" % type(e).__name__, repr(e))
+                        break
                     res.label("pre-detached-instance-clone")
             elif k == "remove_def":
                 top = nl.top_instance
